@@ -302,7 +302,8 @@ def build_real(spec):
         return urwid.GridFlow([build_real(c) for c in spec[4]], 3 + spec[1] % 6, spec[2] % 2, spec[3] % 2,
                               ["left", "center", "right"][spec[1] % 3])
     if t == "padding":
-        return urwid.Padding(build_real(spec[3]), left=spec[1] % 3, right=spec[2] % 3)
+        return urwid.Padding(build_real(spec[3]), left=spec[1] % 3, right=spec[2] % 3,
+                             width=[("relative", 100), "pack", "clip", ("relative", 60), 5][(spec[1] // 3) % 5])
     if t == "attrmap":
         return urwid.AttrMap(build_real(spec[1]), "a", "f")
     if t == "linebox":
@@ -456,8 +457,28 @@ def mutate_real(w, a, b, size):
     if isinstance(w, (urwid.Pile, urwid.Columns, urwid.GridFlow)):
         name = type(w).__name__
         n = len(w.contents)
-        k = a % 8
+        k = a % 14
         opt = w.options()
+        if k == 8 and n:
+            w.contents.reverse()
+            return name + ".contents.reverse()"
+        if k == 9 and n > 1:
+            w.contents.pop(b % n)
+            return name + ".contents.pop"
+        if k == 10:
+            w.contents.extend([(new_leaf(b), opt), (new_leaf(b // 5), opt)][: 1 + b % 2])
+            return name + ".contents.extend"
+        if k == 11 and n:
+            w.contents.sort(key=lambda t: (type(t[0]).__name__, len(repr(t[0]))), reverse=bool(b % 2))
+            return name + ".contents.sort"
+        if k == 12 and n > 1:
+            w.contents.remove(w.contents[b % n])
+            return name + ".contents.remove"
+        if k == 13 and n:
+            w.contents += [(new_leaf(b), opt)]
+            return name + ".contents.iadd"
+        if k >= 8:
+            return None
         if k == 0 and n:
             w.focus_position = b % n
             return name + ".focus_position"
@@ -509,13 +530,17 @@ def mutate_real(w, a, b, size):
             return "LineBox.original_widget" if setprop(w, "original_widget", new_leaf(b)) else None
         return None
     if isinstance(w, urwid.AttrMap):
-        k = a % 3
+        k = a % 5
         if k == 0:
             w.set_attr_map({None: ["p", "q", None][b % 3]})
             return "AttrMap.set_attr_map"
         if k == 1:
-            w.set_focus_map({None: ["fp", "fq"][b % 2]})
-            return "AttrMap.set_focus_map"
+            w.set_focus_map([{None: "fp"}, {None: "fq"}, None, {"attr": "fm"}][b % 4])
+            return "AttrMap.set_focus_map" + ("(None)" if b % 4 == 2 else "")
+        if k == 3:
+            return "AttrMap.focus_map" if setprop(w, "focus_map", [None, {None: "fr"}][b % 2]) else None
+        if k == 4:
+            return "AttrMap.attr_map" if setprop(w, "attr_map", {None: ["r", None][b % 2], "attr": "am"}) else None
         if "flow" in w.original_widget.sizing():
             return "AttrMap.original_widget" if setprop(w, "original_widget", new_leaf(b)) else None
         return None
@@ -524,7 +549,7 @@ def mutate_real(w, a, b, size):
         if k == 0:
             return "Padding.align" if setprop(w, "align", ["left", "center", "right"][b % 3]) else None
         if k == 1:
-            return "Padding.width" if setprop(w, "width", [("relative", 50), ("relative", 100), "pack", 4][b % 4]) else None
+            return "Padding.width" if setprop(w, "width", [("relative", 50), ("relative", 100), "pack", 4, "clip"][b % 5]) else None
         if k == 2:
             return "Padding.left" if setprop(w, "left", b % 3) else None
         if k == 3:
@@ -543,7 +568,25 @@ def mutate_real(w, a, b, size):
         return "Filler.original_widget" if setprop(w, "original_widget", new_leaf(b)) else None
     if isinstance(w, urwid.ListBox):
         n = len(w.body)
-        k = a % 7
+        k = a % 13
+        if k == 7 and n:
+            w.body.reverse()
+            return "ListBox.body.reverse()"
+        if k == 8 and n > 1:
+            w.body.pop(b % n)
+            return "ListBox.body.pop"
+        if k == 9:
+            w.body.insert(b % (n + 1), new_leaf(b))
+            return "ListBox.body.insert"
+        if k == 10:
+            w.body.extend([new_leaf(b), new_leaf(b // 5)][: 1 + b % 2])
+            return "ListBox.body.extend"
+        if k == 11 and n:
+            w.body.sort(key=lambda x: (type(x).__name__, len(repr(x))), reverse=bool(b % 2))
+            return "ListBox.body.sort"
+        if k == 12 and n > 1:
+            w.body[:] = list(w.body)[b % n:] + list(w.body)[: b % n]
+            return "ListBox.body.rotate"
         if k == 0 and n:
             w.set_focus(b % n)
             return "ListBox.set_focus"
@@ -675,13 +718,22 @@ def run_real(case):
     try:
         for op in case["ops"]:
             o = {"op": op[0]}
-            if op[0] == "render":
+            if op[0] in ("render", "rsub"):
                 size = (SIZES[op[1] % len(SIZES)],)
                 focus = bool(op[2])
+                real_top = top
+                if op[0] == "rsub":
+                    ws = walk(top)
+                    top = ws[op[4] % len(ws)]
+                    del ws
+                    o["on"] = type(top).__name__
+                    sizing = top.sizing()
+                    if "flow" not in sizing:
+                        size = (size[0], BOXROWS[op[4] % 3]) if "box" in sizing else ()
                 try:
                     c1 = top.render(size, focus)
                     d1 = content_of(c1)
-                    r1 = top.rows(size, focus)
+                    r1 = top.rows(size, focus) if len(size) == 1 else c1.rows()
                 except Exception as e:      # noqa: BLE001
                     o["exc"] = type(e).__name__
                     c1 = d1 = r1 = None
@@ -694,10 +746,11 @@ def run_real(case):
                 saved = (CanvasCache._widgets, CanvasCache._refs, CanvasCache._deps)
                 CanvasCache.clear()
                 try:
-                    r2 = top.rows(size, focus)
+                    r2 = top.rows(size, focus) if len(size) == 1 else None
                     c2 = top.render(size, focus)
                     d2 = content_of(c2)
                     r3 = c2.rows()
+                    r2 = r3 if r2 is None else r2
                 except Exception as e:      # noqa: BLE001
                     o["exc_fresh"] = type(e).__name__
                     d2, r2, r3, c2 = None, None, None, None
@@ -715,6 +768,8 @@ def run_real(case):
                     if d1 != d2:
                         o["cached"], o["fresh"] = summarize(d1), summarize(d2)
                 del c1
+                top = real_top
+                del real_top
             elif op[0] == "mut":
                 ws = walk(top)
                 w = ws[op[1] % len(ws)]
@@ -955,7 +1010,7 @@ class C06(core.Check):
             if k == 2:
                 return ["gridflow", rng.randrange(6), rng.randrange(2), rng.randrange(2), [leaf() for _ in range(rng.randint(0, 4))]]
             if k == 3:
-                return ["padding", rng.randrange(3), rng.randrange(3), flow(d - 1)]
+                return ["padding", rng.randrange(15), rng.randrange(3), flow(d - 1)]
             if k == 4:
                 return ["attrmap", flow(d - 1)]
             if k == 5:
@@ -991,10 +1046,12 @@ class C06(core.Check):
         ops = [["render", rng.randrange(4), rng.randrange(2), 1]]
         for _ in range(nops or rng.choice([6, 10, 16, 24])):
             x = rng.random()
-            if x < 0.42:
+            if x < 0.34:
                 ops.append(["render", rng.choice([0, 0, 1, 2, 3]), rng.randrange(2), int(rng.random() < 0.7)])
+            elif x < 0.44:
+                ops.append(["rsub", rng.choice([0, 0, 1, 2, 3]), rng.randrange(2), int(rng.random() < 0.5), rng.randrange(40)])
             elif x < 0.9:
-                ops.append(["mut", rng.randrange(40), rng.randrange(8), rng.randrange(60), rng.randrange(4)])
+                ops.append(["mut", rng.randrange(40), rng.randrange(14), rng.randrange(60), rng.randrange(4)])
             elif x < 0.97:
                 ops.append(["gc", rng.randrange(4)])
             else:
@@ -1002,7 +1059,31 @@ class C06(core.Check):
         ops.append(["render", ops[0][1], ops[0][2], 0])
         return {"kind": "real", "mode": rng.choice(["swap", "swap", "clear"]), "tree": tree, "ops": ops}
 
+    @staticmethod
+    def contents_edit_cases(tier):
+        """Small scope, exhaustive: every list operation of the contents list / list walker, at every focus position, on
+        containers of 2..4 distinct items: render, set focus, render, edit, render."""
+        items = [["text", 0, 0], ["text", 1, 0], ["text", 3, 0], ["text", 5, 0], ["checkbox", 0]]
+        for kind in ("pile", "columns", "gridflow", "listbox-focus-walker", "listbox-walker"):
+            for n in ((2, 3, 4) if tier == "quick" else (1, 2, 3, 4, 5)):
+                kids = items[:n]
+                if kind == "pile":
+                    tree, idx, nk = ["pile", kids], 0, 14
+                elif kind == "columns":
+                    tree, idx, nk = ["columns", 1, kids, [0]], 0, 14
+                elif kind == "gridflow":
+                    tree, idx, nk = ["gridflow", 2, 1, 0, kids], 0, 14
+                else:
+                    tree, idx, nk = ["boxadapter", 4, ["listbox", 1 if kind == "listbox-focus-walker" else 0, kids]], 1, 13
+                for f in range(n):
+                    for k in range(1, nk):
+                        for b in ((0, 1) if tier == "quick" else (0, 1, 2, 3)):
+                            yield {"kind": "real", "mode": "swap", "tree": tree,
+                                   "ops": [["render", 2, 1, 1], ["mut", idx, 0, f, 2], ["render", 2, 1, 1],
+                                           ["mut", idx, k, b, 2], ["render", 2, 1, 0], ["render", 2, 0, 0]]}
+
     def cases(self, rng, tier):
+        yield from self.contents_edit_cases(tier)
         nbk = 2500 if tier == "quick" else 20000
         for _ in range(nbk):
             yield self.gen_bk(rng)
@@ -1089,7 +1170,7 @@ class C06(core.Check):
                 if o.get("what"):
                     last = f"{o['what']} on {o['on']}"
                 continue
-            if o["op"] != "render":
+            if o["op"] not in ("render", "rsub"):
                 continue
             if "exc" in o and "exc_fresh" not in o:
                 msgs.append(f"render with cached canvases raises {o['exc']} but renders fine with the cache emptied (last change: {last})")
@@ -1141,7 +1222,9 @@ class C06(core.Check):
         for o in res["outs"]:
             if o["op"] == "mut":
                 inc("mut:" + str(o.get("what")) if not o.get("mexc") else "mut-raised:" + o["mexc"])
-            elif o["op"] == "render":
+            elif o["op"] in ("render", "rsub"):
+                if o["op"] == "rsub":
+                    inc("rsub.on:" + o.get("on", "?"))
                 if "same" in o:
                     inc("render.compared")
                     r = o["rows"]
